@@ -1,12 +1,12 @@
 SPECIFICATION Spec
 CONSTANTS
   N = 3
-  MaxSteps = 3
+  MaxSteps = 2
   K = 0
   M = 0
   Roots = 1
   NatSteps = 1
-  Kinds = {"hs", "hd", "hw", "pk", "hy"}
+  Kinds = {"hs", "hd", "hw", "pk", "hy", "pc"}
   NatKinds = {"sd"}
   Prune = TRUE
   Plan = "free"
